@@ -57,8 +57,10 @@ def main():
             sh("git -C %s checkout -- ." % REPO)
         json.dump(results, open(os.path.join(ROOT, "seeded", "results.json"), "w"), indent=1, sort_keys=True)
     json.dump(results, open(os.path.join(ROOT, "seeded", "results.json"), "w"), indent=1, sort_keys=True)
-    # restore generated files for the unchanged tree
-    sh("python3 tools/vp.py check C12 --tier quick", cwd=ROOT)
+    # restore generated files and the evidence of the unchanged tree (the runs above rewrote evidence/<id>.json with what
+    # they saw on the changed trees)
+    for p in sorted({json.load(open(os.path.join(ROOT, "seeded", sid, "meta.json")))["property"] for sid in ids} | {"C12"}):
+        sh("python3 tools/vp.py check %s --tier quick" % p, cwd=ROOT)
 
 
 if __name__ == "__main__":
